@@ -24,6 +24,17 @@ type ScopeWS struct {
 	GlobalUses map[string][]GSite // every free-name occurrence per name
 	Loose      bool               // arbitrary files (repository testdata), not generator output
 	DeclMember bool               // Loose, and every member chain in the files is declared down to its last key
+	Roots      []string           // workspace folders (sibling directories under the scratch root; the first is the main folder); nil = one folder
+}
+
+// Reroot spreads the files over several workspace folders that lie next to each other (none inside another).
+func (ws *ScopeWS) Reroot(roots []string) {
+	ws.Roots = roots
+	ws.ByRel = map[string]*SFile{}
+	for i, f := range ws.Files {
+		f.Rel = roots[i%len(roots)] + "/" + f.Rel
+		ws.ByRel[f.Rel] = f
+	}
 }
 
 type GSite struct {
